@@ -15,7 +15,7 @@ ASSUMPTIONS = [
     "H08a proves the step function for every counter value 1..0xFFFF and both flag values: with the initial state (True, 1) this is, by induction, the whole 2 x 65535 cycle",
     "threads contending for outgoing_lock are outside the model (single event-loop thread)",
 ]
-REACH = {"H08a": ["h08a.wrap", "h08a.nowrap"], "H08b": ["h08b.sent", "h08b.empty"], "H08c": ["h08c.sent"]}
+REACH = {"H08a": ["h08a.wrap", "h08a.nowrap"], "H08b": ["h08b.sent", "h08b.empty"], "H08c": ["h08c.sent", "h08c.churn"]}
 DESTS = [None, P, Q]
 FRESH = ("192.0.2.9", 30490)  # never preset: starts from the default state (True, 1)
 
@@ -25,7 +25,7 @@ def bounds(tier):
     return {
         "H08a": "one assign_outgoing step: destination in {multicast(None), P, Q, fresh}, state (flag, id) with id 1..0xFFFF symbolic, two foreign destinations with symbolic state",
         "H08b": "K<=%d send_sd calls (all sequences up to 3 (thorough 4), sequences of the maximal length over at most two destinations), destination per call from {multicast, P, Q (counters preset to symbolic (flag, id)), a fresh peer (default state)}, empty/non-empty per call; datagrams decoded by the independent reader" % k,
-        "H08c": "SimpleEventgroup notifications to 2 subscribers (IPv4, IPv6), %d rounds of 1..3 events, per-destination counters preset symbolic" % (3 if tier == "thorough" else 2),
+        "H08c": "SimpleEventgroup notifications to 2 subscribers (IPv4, IPv6), %d rounds of 1..3 events, per-destination counters preset symbolic; plus subscriber churn before the last round (the only subscriber of a second eventgroup leaves / both subscribers leave and return)" % (3 if tier == "thorough" else 2),
     }
 
 
@@ -43,6 +43,11 @@ def cases(tier, seed):
     R = 3 if tier == "thorough" else 2
     for combo in itertools.product((1, 2, 3), repeat=R):
         out.append({"h": "H08c", "rounds": list(combo)})
+    # subscriber churn before the last round: the only subscriber of a second eventgroup leaves /
+    # one of the two subscribers leaves and comes back: counters of the destinations persist
+    for churn in (1, 2):
+        for last in (1, 3):
+            out.append({"h": "H08c", "rounds": [2] * (R - 1) + [last], "churn": churn})
     return out
 
 
@@ -155,7 +160,27 @@ def h08c(E, M, case):
         evg.subscribed_endpoints.add(ep)
     evg.has_clients.set()
     t = 0
+    churn = case.get("churn", 0)
+    if churn == 1:
+        evg2 = loop.call(M.service.SimpleEventgroup, svc, 6)
+        svc.register_eventgroup(evg2)
+        epc = M.header.IPv4EndpointOption(ipaddress.IPv4Address("192.0.2.8"), M.header.L4Protocols.UDP, 4002)
+        evg2.subscribed_endpoints.add(epc)
+        evg2.has_clients.set()
     for r, nev in enumerate(case["rounds"]):
+        if churn and r == len(case["rounds"]) - 1:
+            if churn == 1:
+                loop.deliver(t + 50, lambda: evg2.unsubscribe(epc), may_defer=False)
+            else:
+                def leave_and_return():
+                    evg.unsubscribe(eps[0])
+                    evg.unsubscribe(eps[1])
+                    evg.subscribed_endpoints.add(eps[0])
+                    evg.subscribed_endpoints.add(eps[1])
+                    evg.has_clients.set()
+                loop.deliver(t + 50, leave_and_return, may_defer=False)
+            loop.settle()
+            E.reach("h08c.churn")
         t += 100
         n0 = len(tr.sent)
         events = [1, 2, 3][:nev]
